@@ -312,13 +312,13 @@ cdef class AccelerationEval:
         ## ---- Subgroups start
         % if group.has_subgroups:
         % if group.pre:
-        with profile_ctx("AccelerationEval.${group.name}.pre"):
-            ${indent(helper.get_pre_call(group), indent_lvl + 1)}
+        ${indent('with profile_ctx("AccelerationEval.%s.pre"):' % group.name, indent_lvl)}
+        ${indent(helper.get_pre_call(group), indent_lvl + 1)}
         % endif
         % for sg_idx, sub_group in enumerate(group.data):
         ${indent("# Doing subgroup " + str(sg_idx), indent_lvl)}
         % if sub_group.condition is not None:
-        if ${helper.get_condition_call(sub_group)}:
+        ${indent('if ' + helper.get_condition_call(sub_group) + ':', indent_lvl)}
         <%
         indent_lvl += 1
         %>
@@ -336,18 +336,18 @@ cdef class AccelerationEval:
         ## Update NNPS locally if needed
         #######################################################################
         % if group.update_nnps:
-        # Updating NNPS.
-        with profile_ctx("Integrator.update_domain"):
-            nnps.update_domain()
-        with profile_ctx("nnps.update"):
-            nnps.update()
+        ${indent('# Updating NNPS.', indent_lvl)}
+        ${indent('with profile_ctx("Integrator.update_domain"):', indent_lvl)}
+        ${indent('nnps.update_domain()', indent_lvl + 1)}
+        ${indent('with profile_ctx("nnps.update"):', indent_lvl)}
+        ${indent('nnps.update()', indent_lvl + 1)}
         % endif
         #######################################################################
         ## Call any `post` functions
         #######################################################################
         % if group.post:
-        with profile_ctx("AccelerationEval.${group.name}.post"):
-            ${indent(helper.get_post_call(group), indent_lvl + 1)}
+        ${indent('with profile_ctx("AccelerationEval.%s.post"):' % group.name, indent_lvl)}
+        ${indent(helper.get_post_call(group), indent_lvl + 1)}
         % endif
         % else:  # No subgroups
         ${indent(do_group(helper, group, indent_lvl), indent_lvl)}
